@@ -102,7 +102,8 @@ def word_sweep(ctx, v, alphabet, maxlen, stream):
             except BaseException:
                 ref_single = False
             toks = [t for t in tokenize(w + '\n', version_info=vi) if t.type not in (T.NEWLINE, T.ENDMARKER)]
-            mine_single = len(toks) == 1 and toks[0].string == w and toks[0].type in (T.NUMBER, T.OP)
+            mine_single = len(toks) == 1 and toks[0].string == w and toks[0].type in (T.NUMBER, T.OP) and \
+                (not ref_single or (toks[0].type == T.NUMBER) == (rt[0].type == pytok.NUMBER))
             if ref_single and not mine_single:
                 ctx.violation('C10:token-word-differs:%s' % ('number' if w[0] in '0123456789.' else 'operator'),
                               dict(kind='input', version=v, input_text='x = ' + w + '\n', word=w,
